@@ -199,6 +199,8 @@ impl<'a> Printer<'a> {
             "tlist" => format!("[{}]", self.ty(&t["e"])),
             // a generic type variable `*A` (C03 arrival universe); additive node kind
             "tgen" => format!("*{}", s(t, "n")),
+            // the unknown type `*` (C08 annotation-type families); additive node kind
+            "tany" => "*".into(),
             // a generic type applied to arguments `Box(B)` (C11 type-order family); additive node kind
             "tapp" => {
                 let args: Vec<String> = arr(t, "args").iter().map(|x| self.ty(x)).collect();
@@ -349,7 +351,10 @@ impl<'a> Printer<'a> {
             // parameters of function type must keep their annotation: the property only makes
             // parameters of non-function type optional
             let is_fn_ty = p["ty"]["k"] == "tfn";
-            if Self::has_ty(&p["ty"]) && (is_fn_ty || self.annotate()) {
+            // optional field `keep` (C08 families): the annotation is needed to type a call made through the
+            // parameter in the body, so it is no site either; absent = false
+            let keep = b(p, "keep");
+            if Self::has_ty(&p["ty"]) && (is_fn_ty || keep || self.annotate()) {
                 ps.push(format!("{}: {}", name, self.ty_nested(&p["ty"])));
             } else {
                 ps.push(name);
